@@ -70,11 +70,16 @@ class NixSourceCode:
         self.source_path = source_path
 
     @classmethod
-    def from_cst(cls, node: Node) -> NixSourceCode:
+    def from_cst(
+        cls, node: Node, full_source: bytes | None = None
+    ) -> NixSourceCode:
         """Build a source wrapper that keeps trivia for round-trip fidelity."""
         if node.text is None:
             raise ValueError("Missing source text")
         source_bytes = node.text
+        # The root node starts at the first token; pass-through of broken input
+        # must also keep whatever whitespace precedes it.
+        raw_bytes = full_source if full_source is not None else source_bytes
 
         contains_error = False
         has_error_attr = getattr(node, "has_error", None)
@@ -92,7 +97,7 @@ class NixSourceCode:
 
         if contains_error:
             # Preserve the raw text so round-tripping doesn't lose information.
-            raw_text = source_bytes.decode()
+            raw_text = raw_bytes.decode()
             return cls(
                 node=node,
                 expressions=[RawExpression(text=raw_text)],
